@@ -13,6 +13,18 @@ use tonic_health::pb::{HealthCheckRequest, HealthCheckResponse};
 use tonic_health::ServingStatus;
 
 const SERVICES: [&str; 3] = ["", "a", "b"];
+struct Named0;
+struct Named1;
+struct Named2;
+impl tonic::server::NamedService for Named0 {
+    const NAME: &'static str = "";
+}
+impl tonic::server::NamedService for Named1 {
+    const NAME: &'static str = "a";
+}
+impl tonic::server::NamedService for Named2 {
+    const NAME: &'static str = "b";
+}
 
 fn st_of(i: u64) -> ServingStatus {
     match i % 3 {
@@ -43,7 +55,7 @@ pub fn run(cfg: &RunCfg) -> Ctx {
     all.floor("race2.with_clear", 10);
     all.merge(par_cases(&c, "race3", cfg.n(90, 2500), || (), |_, rng, ctx, _| race3_case(rng, ctx)));
     all.floor("race3.histories", 40);
-    for k in ["seq.check_found", "seq.check_not_found", "seq.watch_not_found", "seq.watch_items", "seq.stream_ended_by_clear", "seq.several_updates_after_subscription", "seq.redundant_set_then_change", "seq.set_then_clear_unpolled", "conc.histories_linearizable", "conc.watch_items"] {
+    for k in ["seq.typed_set", "seq.check_found", "seq.check_not_found", "seq.watch_not_found", "seq.watch_items", "seq.stream_ended_by_clear", "seq.several_updates_after_subscription", "seq.redundant_set_then_change", "seq.set_then_clear_unpolled", "conc.histories_linearizable", "conc.watch_items"] {
         all.floor(k, 5);
     }
     all
@@ -90,7 +102,22 @@ fn sequential(rng: &mut Rng, ctx: &mut Ctx) {
                 // set
                 let st = st_of(rng.u64());
                 ops_log.push(format!("set({:?},{})", SERVICES[s], wire(st)));
-                if !matches!(ex.block_on(1000, reporter.set_service_status(SERVICES[s], st)), Out::Done(())) {
+                // the typed shorthands are the same operation, spelled through `NamedService::NAME`
+                let typed = rng.chance(1, 3) && st != ServingStatus::Unknown;
+                let done = if typed {
+                    ctx.count("seq.typed_set");
+                    match (s, st) {
+                        (0, ServingStatus::Serving) => matches!(ex.block_on(1000, reporter.set_serving::<Named0>()), Out::Done(())),
+                        (1, ServingStatus::Serving) => matches!(ex.block_on(1000, reporter.set_serving::<Named1>()), Out::Done(())),
+                        (_, ServingStatus::Serving) => matches!(ex.block_on(1000, reporter.set_serving::<Named2>()), Out::Done(())),
+                        (0, _) => matches!(ex.block_on(1000, reporter.set_not_serving::<Named0>()), Out::Done(())),
+                        (1, _) => matches!(ex.block_on(1000, reporter.set_not_serving::<Named1>()), Out::Done(())),
+                        (_, _) => matches!(ex.block_on(1000, reporter.set_not_serving::<Named2>()), Out::Done(())),
+                    }
+                } else {
+                    matches!(ex.block_on(1000, reporter.set_service_status(SERVICES[s], st)), Out::Done(()))
+                };
+                if !done {
                     ctx.violation("set-hang", "set_service_status did not complete".into());
                     return;
                 }
